@@ -54,3 +54,15 @@ schema('frontends.tui.terminal_ui.TerminalUI', command_sink='Obj("interfaces.com
 
 global_cell('core.util.color_output', 'bool')
 global_cell('core.util.verbose', 'bool')
+
+# ---- matchers (core/matcher.py)
+M_ = 'Obj("core.matcher.Matcher")'
+schema('core.matcher.AlwaysMatcher', result='bool')
+schema('core.matcher.WildcardMatcher', pattern='str', regex='Obj("core.matcher._Regex")')
+schema('core.matcher.EqMatcher', expected='Any', text='str')
+schema('core.matcher.WrapMatcher', wrapped=M_)
+schema('core.matcher.PairMatcher', a=M_, b=M_, delimiter='str')
+schema('core.matcher.MatcherList', positive='List(%s)' % M_, negative='List(%s)' % M_)
+schema('core.matcher.ArgsMatcherList', positive='List(%s)' % M_, negative='List(%s)' % M_)
+schema('core.matcher.MessagePattern', conn_matcher=M_, obj_matcher=M_, name_matcher=M_, args_matcher=M_,
+       match_new='bool', match_destroyed='bool')
